@@ -6225,9 +6225,14 @@ impl Deserialize for bit_vec::BitVec<u32> {
         if numbytes & (1 << 63) != 0 {
             //New format
             numbytes &= !(1 << 63);
-            let mut ret = bit_vec::BitVec::with_capacity(numbytes * 8);
+            let num_words = numbytes / 4;
+            if numbits > num_words.saturating_mul(32) {
+                return Err(SavefileError::GeneralError {
+                    msg: format!("BitVec claims {} bits, but only {} bytes of storage", numbits, numbytes),
+                });
+            }
+            let mut ret = bit_vec::BitVec::with_capacity(numbytes.saturating_mul(8));
             unsafe {
-                let num_words = numbytes / 4;
                 let storage = ret.storage_mut();
                 storage.resize(num_words, 0);
                 let storage_ptr = storage.as_ptr() as *mut u8;
@@ -6391,9 +6396,14 @@ impl Deserialize for bit_vec08::BitVec<u32> {
         if numbytes & (1 << 63) != 0 {
             //New format
             numbytes &= !(1 << 63);
-            let mut ret = bit_vec08::BitVec::with_capacity(numbytes * 8);
+            let num_words = numbytes / 4;
+            if numbits > num_words.saturating_mul(32) {
+                return Err(SavefileError::GeneralError {
+                    msg: format!("BitVec claims {} bits, but only {} bytes of storage", numbits, numbytes),
+                });
+            }
+            let mut ret = bit_vec08::BitVec::with_capacity(numbytes.saturating_mul(8));
             unsafe {
-                let num_words = numbytes / 4;
                 let storage = ret.storage_mut();
                 storage.resize(num_words, 0);
                 let storage_ptr = storage.as_ptr() as *mut u8;
